@@ -226,6 +226,13 @@ impl C14 {
                     if !check_diffs(h, "C14/group", diffs, &before, &after, &touched) {
                         return false;
                     }
+                    // entries for exactly the touched addresses: every address of the add list was written (even at
+                    // its old weight), every removed member was removed
+                    for (a, _) in add {
+                        if !h.check(diffs.iter().any(|d| d.0 == *a), "C14/group/diff/touched-address-without-entry", || format!("{a} is in the add list of the call, no entry of the notification names it")) {
+                            return false;
+                        }
+                    }
                 }
                 if notes.windows(2).any(|w| w[0].1 != w[1].1) {
                     h.violate("C14/group/hooks/hooks-got-different-diffs", format!("{notes:?}"));
